@@ -27,18 +27,16 @@ Outcomes: pandas raising on the concatenated frame -> ``ctx.reject``; dask raisi
 
 Labels.  A failing pipeline is shrunk: shortest failing prefix, then greedy removal of earlier steps while pandas
 still accepts the program and the symptom stays the same.  Then the minimal program is re-run on the same rows as a
-single partition and as ``from_pandas(npartitions=3)`` to obtain a layout predicate.  Label =
-``<culprit>:<layout predicate>:<facet>`` for value differences and ``<culprit>:<exception site>`` for exceptions; culprit
-= the step of the minimal program with the most structure (second operand > frame-level binary op / where > apply >
-astype / fillna / clip / isin > assign > filter > series op > rename > projection; for series steps and single-step
-programs with the outermost expression node in brackets); facet is the one reported by compare (kind / columns /
-dtype / length / index / values / name / categories); exception site is ``ExcType@Class.method`` of the innermost
-frame inside dask/dataframe, ``ExcType@compute`` for errors raised by pandas inside a task, or
-``meta-generation-ExcType`` ("Failed to generate metadata").  Layout predicates: ``any-layout`` (fails
-with one partition too), ``npartitions>1`` (fails with from_pandas(npartitions=3) too), ``layout-specific``.  One
-mechanism is recognised explicitly: when the dask value equals pandas applied to each input partition separately
-(but not pandas on the whole frame) the label is ``partition-wise-evaluation:...:<facet>`` (pandas' own
-value-dependent inference, e.g. int -> float upcast only in the partitions where a NaN/inf appears).
+single partition and as ``from_pandas(npartitions=3)`` to obtain a layout predicate (``any-layout`` = fails with one
+partition too, ``npartitions>1``, ``layout-specific``).  Generic label = ``<culprit>:<layout>:<facet>`` for value
+differences and ``<culprit>:<exception site>`` for exceptions; culprit = the step of the minimal program with the most
+structure; facet = kind / columns / column-order / dtype / length / index / values / name / categories; exception site
+= ``ExcType@Class.method`` of the innermost frame inside dask/dataframe, ``ExcType@compute`` for errors raised by pandas
+inside a task, or ``meta-generation-ExcType``.  Known mechanisms are recognised by explicit predicates and get ONE label
+each (see ``make_label``): ``partition-wise-evaluation:value-dependent-dtype`` (the dask value equals pandas applied to
+every input partition separately: pandas' own value-dependent upcast decided per partition),
+``aligned-operands:mismatched-divisions``, ``apply:axis1:empty-partition:*``, ``other:assign:*``,
+``expr-node:<site>``.
 
 Calibration (unchanged tree)
 ----------------------------
@@ -50,7 +48,8 @@ Calibration (unchanged tree)
   result is non-empty: on empty data pandas cannot know the result dtype (and ``apply(axis=1)`` returns an empty
   *DataFrame*), while dask returns what ``meta=`` promises; the statement ("with given meta") defines no reference.
 * categorical columns produced by ``astype('category')`` have *unknown* categories in dask; only ``as_known``,
-  ``set_categories(list)``, ``astype(str)``, ``==`` and ``isin`` are generated on them (``.cat.codes`` /
+  ``set_categories(list)``, ``astype(str)``, ``==`` and ``isin`` (string values only: pandas itself matches a bool/int
+  categorical differently against a list and against an ndarray of numbers) are generated on them (``.cat.codes`` /
   ``.cat.categories`` raise a documented NotImplementedError, and the category ORDER found by ``as_known`` is not
   specified), and their category lists are not compared.
 * object-dtype string columns (``astype(object)``, ``meta=(name, "object")``) are out of the domain: with pandas >= 3
@@ -110,120 +109,7 @@ LEVEL_NOTE = ("trusts pandas as the reference and the harness comparison (vf.gen
 TECHNIQUE = "runtime monitoring: pandas differential on random typed operation pipelines, ordered comparison incl. index"
 CASE_TIMEOUT = 60
 
-PENDING = {
-    'expr-node:KeyError@MethodOperator._simplify_up':
-        "F1 Binop._simplify_up rebuilds MethodOperator as type(self)(left, right): KeyError('right') after DataFrame.add/sub/... + projection",
-    'where-frame:ValueError@compute':
-        "F4 Where/Mask projection passthrough leaves cond/other as DataFrames: 'Must specify axis=0 or 1'",
-    'expr-node:ValueError@Where._meta':
-        "F4 Where/Mask projection passthrough leaves cond/other as DataFrames: 'Must specify axis=0 or 1'",
-    'filter:predicate-is-astype-node:exception':
-        'F5 Filter whose predicate is an AsType node is rewritten to AsType(Filter(pred, pred)): returns the mask / fails downstream',
-    'filter:predicate-is-astype-node:wrong-result':
-        'F5 Filter whose predicate is an AsType node is rewritten to AsType(Filter(pred, pred)): returns the mask / fails downstream',
-    'expr-node:ValueError@Mask._meta':
-        "F4 Where/Mask projection passthrough leaves cond/other as DataFrames: 'Must specify axis=0 or 1'",
-    'frame-arith:operator:AssertionError@Projection._simplify_down':
-        'F2/F3 projection pushdown into a binary op whose operands have different columns (Binop / OpAlignPartitions): AssertionError',
-    'astype-then-filter:exception':
-        'F6 filter pushed below astype evaluates its predicate on the un-cast columns (silent wrong rows or meta failure)',
-    'apply:axis1:empty-partition:exception':
-        "F11 DataFrame.apply(axis=1, meta=) on an empty partition returns pandas' empty float/frame result instead of the meta; later steps fail",
-    'other:frame-arith:KeyError@Projection._meta':
-        'F3 OpAlignPartitions projection passthrough projects only the left operand: extra columns / KeyError / pandas errors after a projection of (ddf op other_ddf)',
-    'frame-cmp:method:wrong-result':
-        'F1 projection pushed into DataFrame.lt/gt/eq(..., axis=0) drops axis: wrong columns/values/length or pandas error in the task',
-    'other:mask:AssertionError@Blockwise._divisions(mismatched-divisions)':
-        "F10 projection pushed through an aligned filter/assign/binary op: 'Mismatched divisions between multiple Blockwise dependencies'",
-    'other:assign:wrong-result':
-        'F8 assign(col=differently partitioned series) aligns with an outer join: extra all-NaN rows, upcast columns, reindex error on duplicates',
-    'partition-wise-evaluation:value-dependent-result-of-pandas-per-partition:dtype':
-        "F12 pandas' value-dependent dtype (int->float upcast, datetime->str format) decided per partition differs from pandas on the whole frame",
-    'assign:any-layout:column-order':
-        'F9 squashing two Assign nodes that overwrite a column changes the column order',
-    'frame-cmp:method:exception':
-        'F1 projection pushed into DataFrame.lt/gt/eq(..., axis=0) drops axis: wrong columns/values/length or pandas error in the task',
-    'other:assign:AssertionError@Blockwise._divisions(mismatched-divisions)':
-        "F10 projection pushed through an aligned filter/assign/binary op: 'Mismatched divisions between multiple Blockwise dependencies'",
-    'fillna:dict-value-then-projection:wrong-result':
-        'F7 Fillna(dict) projection passthrough: dict applied to the projected Series (values not filled / object dtype)',
-    'other:frame-arith:any-layout:columns':
-        'F3 OpAlignPartitions projection passthrough projects only the left operand: extra columns / KeyError / pandas errors after a projection of (ddf op other_ddf)',
-    'other:frame-arith:AssertionError@Projection._simplify_down':
-        'F2/F3 projection pushdown into a binary op whose operands have different columns (Binop / OpAlignPartitions): AssertionError',
-    'other:frame-arith:ValueError@_expr.py:operation':
-        'F3 OpAlignPartitions projection passthrough projects only the left operand: extra columns / KeyError / pandas errors after a projection of (ddf op other_ddf)',
-    'other:series-arith:AssertionError@Projection._simplify_down':
-        'F2/F3 projection pushdown into a binary op whose operands have different columns (Binop / OpAlignPartitions): AssertionError',
-    'other:where-other:KeyError@Projection._meta':
-        'F3 OpAlignPartitions projection passthrough projects only the left operand: extra columns / KeyError / pandas errors after a projection of (ddf op other_ddf)',
-    'partition-wise-evaluation:value-dependent-result-of-pandas-per-partition:values':
-        "F12 pandas' value-dependent dtype (int->float upcast, datetime->str format) decided per partition differs from pandas on the whole frame",
-    'apply:axis1:IndexingError@compute':
-        "F11 DataFrame.apply(axis=1, meta=) on an empty partition returns pandas' empty float/frame result instead of the meta; later steps fail",
-    'astype-then-filter:wrong-result:length':
-        'F6 filter pushed below astype evaluates its predicate on the un-cast columns (silent wrong rows or meta failure)',
-    'expr-node:AttributeError@StringAccessor.__init__':
-        "F13 str_series + 'literal' has object meta; meta_nonempty of object is non-string, so a second chained .str operation raises",
-    'expr-node:TypeError@MethodOperatorAlign._meta':
-        'F3/F1 follow-up: operand of an aligned/method binary op left un-projected or axis lost; meta computation raises TypeError',
-    'frame-arith:method:AssertionError@Projection._simplify_down':
-        'F2/F3 projection pushdown into a binary op whose operands have different columns (Binop / OpAlignPartitions): AssertionError',
-    'other:assign:exception':
-        'F8 assign(col=differently partitioned series) aligns with an outer join: extra all-NaN rows, upcast columns, reindex error on duplicates',
-    'other:series-arith:AssertionError@Blockwise._divisions(mismatched-divisions)':
-        "F10 projection pushed through an aligned filter/assign/binary op: 'Mismatched divisions between multiple Blockwise dependencies'",
-    'other:series-arith:meta-generation-RuntimeError':
-        'F6 filter pushed below astype evaluates its predicate on the un-cast columns (silent wrong rows or meta failure)',
-    'apply:axis1:UFuncTypeError@compute':
-        "F11 DataFrame.apply(axis=1, meta=) on an empty partition returns pandas' empty float/frame result instead of the meta; later steps fail",
-    'apply:axis1:meta-generation-RuntimeError':
-        'F6 filter pushed below astype evaluates its predicate on the un-cast columns (silent wrong rows or meta failure)',
-    'expr-node:TypeError@LE._meta':
-        'F3/F1 follow-up: operand of an aligned/method binary op left un-projected or axis lost; meta computation raises TypeError',
-    'frame-arith:operator:ValueError@compute':
-        "F4 Where/Mask projection passthrough leaves cond/other as DataFrames: 'Must specify axis=0 or 1'",
-    'other:frame-arith:InvalidIndexError@backends.py:concat_pandas':
-        'F3 OpAlignPartitions projection passthrough projects only the left operand: extra columns / KeyError / pandas errors after a projection of (ddf op other_ddf)',
-    'other:frame-arith:TypeError@_expr.py:operation':
-        'F3 OpAlignPartitions projection passthrough projects only the left operand: extra columns / KeyError / pandas errors after a projection of (ddf op other_ddf)',
-    'other:frame-arith:ValueError@compute':
-        'F3 OpAlignPartitions projection passthrough projects only the left operand: extra columns / KeyError / pandas errors after a projection of (ddf op other_ddf)',
-    'other:series-arith:IndexingError@compute':
-        'F3 OpAlignPartitions projection passthrough projects only the left operand: extra columns / KeyError / pandas errors after a projection of (ddf op other_ddf)',
-    'other:series-arith:KeyError@Projection._meta':
-        'F3 OpAlignPartitions projection passthrough projects only the left operand: extra columns / KeyError / pandas errors after a projection of (ddf op other_ddf)',
-    'other:series-arith:ValueError@compute':
-        'F3 OpAlignPartitions projection passthrough projects only the left operand: extra columns / KeyError / pandas errors after a projection of (ddf op other_ddf)',
-    'other:where-other:AssertionError@Blockwise._divisions(mismatched-divisions)':
-        "F10 projection pushed through an aligned filter/assign/binary op: 'Mismatched divisions between multiple Blockwise dependencies'",
-    'other:where-other:TypeError@backends.py:meta_nonempty_object':
-        'F3 OpAlignPartitions projection passthrough projects only the left operand: extra columns / KeyError / pandas errors after a projection of (ddf op other_ddf)',
-    'astype:dict:category+str:TypeError@backends.py:_union_categoricals_wrapper':
-        "F12 follow-up: astype('category') after a partition-wise value-dependent dtype: categories of different dtypes cannot be unioned",
-    'astype:frame:category:any-layout:values':
-        'F14 isin values reach the partitions as an ndarray: Series(bool categorical).isin([0]) is all False in dask, pandas (list) matches False',
-    'expr-node:TypeError@GT._meta':
-        'F3 follow-up: projection of an aligned binary op returns NotImplemented operands; comparison meta raises TypeError',
-    'fillna:dict-value-then-projection:exception':
-        'F7 Fillna(dict) projection passthrough: dict applied to the projected Series gives object dtype; later arithmetic raises (e.g. ZeroDivisionError)',
-    'frame-arith:method:TypeError@backends.py:_union_categoricals_wrapper':
-        "F12 follow-up: astype('category') after a partition-wise value-dependent dtype: categories of different dtypes cannot be unioned",
-    'frame-arith:operator:TypeError@backends.py:_union_categoricals_wrapper':
-        "F12 follow-up: astype('category') after a partition-wise value-dependent dtype: categories of different dtypes cannot be unioned",
-    'other:assign:AssertionError@Projection._simplify_down':
-        'F2/F3 projection pushdown into a binary op whose operands have different columns: AssertionError',
-    'other:frame-arith:any-layout:column-order':
-        'F3 projection of (ddf.sub(other, fill_value=..)) loses the requested column order',
-    'other:mask:AttributeError@_accessor.py:operation':
-        "F11 apply(axis=1, meta=) on a partition emptied by an aligned filter returns pandas' empty float piece; .str fails",
-    'other:series-arith:TypeError@_expr.py:operation':
-        'F3 follow-up: un-projected DataFrame operand reaches Series.add',
-    'other:series-arith:any-layout:dtype':
-        'F12 partition-wise value-dependent dtype after aligned series arithmetic with partially overlapping indexes (int + NaN only in some partitions)',
-    'other:where-other:ValueError@compute':
-        "F4 Where/Mask projection passthrough leaves cond/other as DataFrames: 'Must specify axis=0 or 1'",
-}
+PENDING = {}
 
 
 def cases(tier, seed):
@@ -506,6 +392,25 @@ def layout_predicate(mini, case, status, key):
     return "layout-specific"
 
 
+def dtype_only_numeric_upcast(val, exp):
+    """values equal, and every dtype difference is int/bool on one side and float/object on the other"""
+    import pandas as pd
+
+    from vf.gen import frames as F
+
+    try:
+        if F.compare(val, exp, ordered=True, check_dtype=False) is not None:
+            return False
+        a = [val.dtype] if isinstance(val, pd.Series) else list(val.dtypes)
+        b = [exp.dtype] if isinstance(exp, pd.Series) else list(exp.dtypes)
+        lo, hi = ("int", "uint", "bool"), ("float", "object")
+        diff = [(str(x), str(y)) for x, y in zip(a, b) if str(x) != str(y)]
+        return bool(diff) and all((x.startswith(lo) and y.startswith(hi)) or (x.startswith(hi) and y.startswith(lo))
+                                  for x, y in diff)
+    except Exception:  # noqa: BLE001
+        return False
+
+
 def _dask_concat(dfs):
     from dask.dataframe.dispatch import concat
 
@@ -550,7 +455,9 @@ _GENERIC_OWNERS = {"Projection", "Blockwise", "Elemwise", "Filter", "Assign", "E
 
 
 # culprits whose known defect produces a malformed intermediate object (arbitrary downstream symptoms)
-_COLLAPSE = {"frame-cmp:method", "other:assign", "apply:axis1"}
+_COLLAPSE = {"other:assign"}
+MISMATCHED = "AssertionError@Blockwise._divisions(mismatched-divisions)"
+PARTITIONWISE = "partition-wise-evaluation:value-dependent-dtype"
 
 
 def _rank(fam):
@@ -558,32 +465,37 @@ def _rank(fam):
     return _RANK.index(head) if head in _RANK else len(_RANK)
 
 
-def _pred_is_astype(step):
-    return step["op"] in ("filter", "sfilter") and isinstance(step.get("pred"), list) and step["pred"][0] == "astype"
-
-
-def make_label(mini, layout, key):
+def make_label(mini, layout, key, message=""):
     """<culprit>:<layout>:<facet> (value differences) or <culprit>:<exception site>.  culprit = the step of the minimal
     program with the most structure (second operands > frame-level binary ops / where > apply > astype / fillna / clip
-    / isin > assign > filter > series ops > rename > projection; ties: the later step).  Two input-feature predicates
-    replace the culprit because the wrong intermediate object they produce fails in arbitrary ways downstream:
-    a filter whose predicate is an ``astype`` node, an ``astype`` step followed by a filter, and ``fillna(dict)``
-    followed by a projecting step.  Exceptions raised
-    inside the methods of one specific expression class (e.g. ``MethodOperator._simplify_up``) are labelled by that site
-    alone: ``expr-node:ExcType@Class.method``."""
+    / isin > assign > filter > series ops > rename > projection; ties: the later step).
+
+    Mechanism predicates that replace the generic label (one mechanism = one label or a closed family):
+    * ``aligned-operands:mismatched-divisions`` - dask's own assertion "Mismatched divisions between multiple Blockwise
+      dependencies" (only programs with a differently partitioned second operand can reach it);
+    * ``apply:axis1:empty-partition:exception|wrong-result`` - the minimal program contains DataFrame.apply(axis=1) and
+      does NOT fail on a single partition holding all rows (the user function's partition was empty);
+    * ``partition-wise-evaluation:value-dependent-dtype`` - decided in run_case (dask value == pandas applied per
+      partition), and here for its follow-up error: unknown categoricals whose per-partition categories got different
+      dtypes cannot be unioned, while the same program works on one partition;
+    * ``other:assign:exception|wrong-result`` - assign of a differently partitioned series (outer alignment);
+    * ``filter:or-of-identical-operands-then-filter:IndexingError@compute`` - ``s2 = s[p | p]; s2[s2]``;
+    * exceptions raised inside the methods of one specific expression class are labelled by that site alone:
+      ``expr-node:ExcType@Class.method``."""
     fams = [family(c) for c in mini["classes"]]
     steps = mini["steps"]
     exc = "@" in key or key.startswith("meta-generation")
-    if any(_pred_is_astype(st) for st in steps):
-        return "filter:predicate-is-astype-node:%s" % ("exception" if exc else "wrong-result")
-    ifd = [i for i, st in enumerate(steps) if st["op"] == "fillna" and isinstance(st.get("value"), dict)]
-    if ifd and ifd[0] < len(steps) - 1 and not ("@" in key and key.split("@", 1)[1].split(".")[0] not in _GENERIC_OWNERS
-                                                and "." in key.split("@", 1)[1] and ":" not in key.split("@", 1)[1]):
-        return "fillna:dict-value-then-projection:%s" % ("exception" if exc else "wrong-result")
-    ia = [i for i, f in enumerate(fams) if f.split(":")[0] == "astype" or f.startswith("series:astype")]
-    if ia and any(st["op"] in ("filter", "sfilter") for st in steps[ia[0] + 1:]) and \
-            not any(_rank(f) < _rank("astype") for f in fams):
-        return "astype-then-filter:%s" % ("exception" if exc else "wrong-result:" + key)
+    if key == MISMATCHED:
+        return "aligned-operands:mismatched-divisions"
+    if key == "IndexingError@compute" and any(
+            st["op"] in ("filter", "sfilter") and isinstance(st.get("pred"), list) and st["pred"][:2] == ["bin", "|"]
+            and st["pred"][2] == st["pred"][3] for st in steps[:-1]):
+        return "filter:or-of-identical-operands-then-filter:IndexingError@compute"
+    if any(st["op"] == "apply_rows" for st in steps) and layout != "any-layout":
+        return "apply:axis1:empty-partition:%s" % ("exception" if exc else "wrong-result")
+    if exc and layout != "any-layout" and ("_union_categoricals_wrapper" in key or
+                                           "Categorical categories must be unique" in message):
+        return PARTITIONWISE
     site = key.split("@", 1)[1] if "@" in key else ""
     if exc and "." in site and ":" not in site and "(" not in site:
         owner = site.split(".")[0]
@@ -593,11 +505,8 @@ def make_label(mini, layout, key):
     if key == "column-order" and "assign" in fams:
         best = max(i for i, f in enumerate(fams) if f == "assign")
     fam = fams[best]
-    if fam in _COLLAPSE and not ("@" in key and "." in site and ":" not in site):
-        # one defect, many downstream symptoms (see findings): only exception / wrong-result is kept
-        tag = ":empty-partition" if fam == "apply:axis1" and layout == "layout-specific" else ""
-        if fam != "apply:axis1" or tag:
-            return "%s%s:%s" % (fam, tag, "exception" if exc else "wrong-result")
+    if fam in _COLLAPSE:
+        return "%s:%s" % (fam, "exception" if exc else "wrong-result")
     head = fam.split(":")[0]
     h = None
     if head == "series" or (head in ("filter", "assign") and len([f for f in fams if f != "project"]) == 1):
@@ -678,12 +587,16 @@ def run_case(case, ctx):
             if isinstance(e, CaseTimeout):
                 raise
             mini, layout = desc, "unshrunk"
-    label = make_label(mini, layout, key)
-    if status == "neq" and layout != "any-layout" and "val" in info:
+    label = make_label(mini, layout, key, info.get("message", ""))
+    if status == "neq" and "val" in info:
         with warnings.catch_warnings():
             warnings.simplefilter("ignore")
-            if partitionwise_equal(desc, c, info["val"]):
-                label = "partition-wise-evaluation:value-dependent-result-of-pandas-per-partition:%s" % key
+            if layout != "any-layout" and partitionwise_equal(desc, c, info["val"]):
+                label = PARTITIONWISE
+            elif key == "dtype" and desc["uses_other"] and dtype_only_numeric_upcast(info["val"], info["exp"]):
+                # aligned operands: rows that got a NaN from the alignment were filtered away again; pandas upcast the
+                # whole column, dask only the partitions that saw a NaN
+                label = PARTITIONWISE
     detail = {"minimal_pipeline": mini["steps"], "full_pipeline": desc["steps"], "index_kind": c["kind"],
               "partitioning": c["pdesc"], "second_operand_partitioning": c["odesc"], "same_rows": c["same"],
               "divisions": list(ddf.divisions), "rows": len(pdf), "case_seed": case["cs"]}
